@@ -34,6 +34,8 @@ def run(tier, seed, replay=None):
             routine = "amen_mv" if i % 2 == 0 else "amen_mm"; d = rng.choice([3, 4]); N = [rng.choice([2, 3, 4]) for _ in range(d)]; M = [rng.choice([2, 3]) for _ in range(d)]
             singleton = False; cplx = False; dtype = torch.float64; eps = rng.choice([1e-4, 1e-6]); decay = True      # decaying spectra: the truncation really cuts something
             rk = lambda: solverkit.ranks(rng, d, rng.choice([3, 4]))
+        if decay and rng.random() < 0.4:
+            decay = 1e-3                         # steep spectra (1, 1e-3, 1e-6, 1e-9 per bond): components far below sqrt(machine eps) are genuine data for a tight eps
         uneven = i < (4 if tier == "quick" else 60)          # bonds that converge at different sweeps: high product ranks inside, a low-rank last bond
         if uneven:
             routine = "dmrg_hadamard" if i % 2 == 0 else "fast_matvec"
@@ -64,8 +66,47 @@ def run(tier, seed, replay=None):
             ops = {"A": A, "B": B}; exact = A @ B
             call = lambda: torchtt.amen_mm(A, B, eps=eps, X0=guess, nswp=40)
             want_N, want_M = N, M
+        nulldir = False
+        if i in (14, 15, 16, 17) and not uneven:
+            # engineered: the operator annihilates the dominant part of x (A = B o (I - 11^T/n) on the first mode, x = 1 (x) w + delta v with delta < eps):
+            # the contract is relative to ||A x||, not to ||x||
+            nulldir = True; routine = "fast_matvec" if i % 2 == 0 else "amen_mv"; d = 3; N = [rng.choice([3, 4]) for _ in range(d)]; M = list(N)
+            dtype = torch.float64; cplx = False; singleton = False; decay = False; eps = [1e-2, 1e-3, 1e-4, 1e-3][i - 14]; delta = eps / 10.0
+            Bop = solverkit.rand_ttm_float(rng, M, N, [1, 2, 2, 1], dtype)
+            Pc = torchtt.TT([(torch.eye(N[0], dtype=dtype) - torch.ones(N[0], N[0], dtype=dtype) / N[0]).reshape(1, N[0], N[0], 1)] + [torch.eye(n_, dtype=dtype).reshape(1, n_, n_, 1) for n_ in N[1:]])
+            A = (Bop @ Pc).round(1e-14)
+            wv = solverkit.rand_tt_float(rng, N[1:], [1, 2, 1], dtype)
+            x = torchtt.TT([torch.ones(1, N[0], 1, dtype=dtype)] + [c.clone() for c in wv.cores]) + delta * solverkit.rand_tt_float(rng, N, [1, 2, 2, 1], dtype)
+            guess = None; ops = {"A": A, "x": x}; exact = A @ x; want_N, want_M = M, None
+            call = (lambda A=A, x=x: A.fast_matvec(x, eps=eps, nswp=40, use_cpp=False)) if routine == "fast_matvec" else (lambda A=A, x=x: torchtt.amen_mv(A, x, eps=eps, nswp=40))
+            desc.update(routine=routine, d=d, N=N, M=M, eps=eps, null_direction=True, delta=delta, decay=False, dtype=str(dtype))
+        if i in (18, 19) and not uneven:
+            # engineered: AMEn products of operands that are sums of 4 normalised rank-one terms with weights 0.02^j (product weights down to 6e-11), tight eps:
+            # everything above eps has to be kept, ranks far from saturating the mode sizes
+            nulldir = True; routine = "amen_mv" if i == 18 else "amen_mm"; d = 4; M = [5, 4, 6, 5]; K_ = [4, 6, 5, 4]; N = [3, 4, 3, 5]
+            dtype = torch.float64; cplx = False; singleton = False; decay = False; eps = rng.choice([1e-10, 1e-12])
+            def cpdec(shape):
+                cs = []
+                for k_, n_ in enumerate(shape):
+                    n_ = list(n_) if isinstance(n_, tuple) else [n_]
+                    r1_ = 1 if k_ == 0 else 4; r2_ = 1 if k_ == d - 1 else 4
+                    c_ = np.zeros([r1_] + n_ + [r2_])
+                    for j_ in range(4):
+                        v_ = np.array([rng.gauss(0, 1) for _ in range(int(np.prod(n_)))]).reshape(n_); v_ = v_ / np.linalg.norm(v_)
+                        if k_ == 0: v_ = v_ * 0.02 ** j_
+                        c_[(min(j_, r1_ - 1),) + (slice(None),) * len(n_) + (min(j_, r2_ - 1),)] += v_
+                    cs.append(torch.tensor(c_, dtype=dtype))
+                return torchtt.TT(cs)
+            A = cpdec([(m_, k_) for m_, k_ in zip(M, K_)]); guess = None
+            if routine == "amen_mv":
+                x = cpdec(K_); ops = {"A": A, "x": x}; exact = A @ x; want_N, want_M = M, None
+                call = lambda A=A, x=x: torchtt.amen_mv(A, x, eps=eps, nswp=40)
+            else:
+                B = cpdec([(k_, n_) for k_, n_ in zip(K_, N)]); ops = {"A": A, "B": B}; exact = A @ B; want_N, want_M = N, M
+                call = lambda A=A, B=B: torchtt.amen_mm(A, B, eps=eps, nswp=40)
+            desc.update(routine=routine, d=d, N=N, M=M, eps=eps, cp_decay=0.02, decay=False, dtype=str(dtype))
         nswp = 40
-        if routine in ("fast_matvec", "dmrg_hadamard") and d >= 2 and not uneven and rng.random() < 0.12:
+        if routine in ("fast_matvec", "dmrg_hadamard") and d >= 2 and not uneven and not nulldir and rng.random() < 0.12:
             # a warm start (the exact product) with a sweep budget that is used up: the last sweep's no-kick branch decides the result
             guess = exact.round(1e-13); nswp = rng.choice([1, 2, 3]); desc["nswp"] = nswp
             if routine == "fast_matvec": call = (lambda A=A, x=x, g=guess, nswp=nswp: A.fast_matvec(x, eps=eps, initial=g, nswp=nswp, use_cpp=False))
@@ -73,7 +114,7 @@ def run(tier, seed, replay=None):
         if guess is not None: ops["guess"] = guess
         desc["guess"] = guess is not None
         single = False
-        if routine in ("fast_matvec", "dmrg_hadamard") and nswp == 40 and not uneven and rng.random() < 0.12:
+        if routine in ("fast_matvec", "dmrg_hadamard") and nswp == 40 and not uneven and not nulldir and rng.random() < 0.12:
             # single-precision operands: a tolerance below what the dtype can certify (the default eps included) makes the sweeps run out
             single = True
             sdt = torch.complex64 if cplx else torch.float32
@@ -114,7 +155,7 @@ def run(tier, seed, replay=None):
             else:
                 A = sc_all(ops["A"]); B = sc_all(ops["B"]); ops["A"], ops["B"] = A, B; exact = A @ B
                 call = (lambda A=A, B=B, g=ops.get("guess"): torchtt.amen_mm(A, B, eps=eps, X0=g, nswp=40))
-        if rng.random() < 0.3 and not (single or nswp != 40 or "core_scale" in desc or desc.get("structured")):          # the contract is relative: scale one operand by a power of ten
+        if rng.random() < 0.3 and not (single or nswp != 40 or "core_scale" in desc or desc.get("structured") or nulldir):          # the contract is relative: scale one operand by a power of ten
             sc = rng.choice([1e-6, 1e-3, 1e3, 1e6]); desc["scale"] = sc
             k0 = list(ops.keys())[-1] if "guess" not in ops else list(ops.keys())[-2]
             ops[k0] = ops[k0] * sc
@@ -124,7 +165,7 @@ def run(tier, seed, replay=None):
                 y = ops["y"]; exact = x * y
             else:
                 B = ops["B"]; exact = A @ B
-        kd = routine + ("+guess" if guess is not None else "") + (" singleton-mode" if singleton else "") + (" uneven-bonds" if uneven else "") + (" nswp<=3" if nswp != 40 else "") + (" single-precision" if single else "") + (" cores-scaled" if "core_scale" in desc else "") + (" structured-zeros" if desc.get("structured") else "")
+        kd = routine + ("+guess" if guess is not None else "") + (" singleton-mode" if singleton else "") + (" uneven-bonds" if uneven else "") + (" nswp<=3" if nswp != 40 else "") + (" single-precision" if single else "") + (" cores-scaled" if "core_scale" in desc else "") + (" structured-zeros" if desc.get("structured") else "") + (" null-direction" if desc.get("null_direction") else "") + (" cp-decay tight-eps" if desc.get("cp_decay") else "") + (" steep-decay" if decay not in (True, False) else "")
         dist[kd] = dist.get(kd, 0) + 1
         if i % 20 == 0 and len(samples) < 5: samples.append(desc)
         snaps = {k: history.Snap(v) for k, v in ops.items()}
